@@ -9,8 +9,10 @@ and, if all of that holds, stores it as /verif/seeded/<PROP>-m<k>/ (patch.diff, 
 import json, os, re, shutil, subprocess, sys
 
 prop, k = sys.argv[1], sys.argv[2]
-src = "/tmp/mut/%s/out/m%s" % (prop, k)
-dst = "/verif/seeded/%s-m%s" % (prop, k)
+root = os.environ.get("MUT_ROOT", "/tmp/mut")
+name = os.environ.get("MUT_AS", "m" + k)
+src = "%s/%s/out/m%s" % (root, prop, k)
+dst = "/verif/seeded/%s-%s" % (prop, name)
 env = dict(os.environ, GOFLAGS="-mod=mod", GOPROXY="off", GOSUMDB="off", GOTOOLCHAIN="local")
 W = "/tmp/confirm.%d" % os.getpid()
 
